@@ -263,7 +263,7 @@ func Run(r *mc.Run) {
 	var full []In
 	ups := gen.AllStrings(gen.Chars("01a~+.-:"), 2)
 	revs := []string{"", "0", "00", "1", "~", "a", "+"}
-	for _, e := range []uint{0, 1, 2, 10, 1 << 32} {
+	for _, e := range []uint{0, 1, 2, 10, 1 << 31, 1 << 32, 1<<63 - 1} {
 		for _, u := range ups {
 			for _, rv := range revs {
 				full = append(full, In{AE: e, AV: u, AR: rv})
@@ -274,7 +274,7 @@ func Run(r *mc.Run) {
 		// quick: thin the upstream set deterministically (every 3rd) to keep the pair count near 10^6
 		var f2 []In
 		for i, x := range full {
-			if i%3 == 0 {
+			if i%4 == 0 {
 				f2 = append(f2, x)
 			}
 		}
@@ -282,7 +282,7 @@ func Run(r *mc.Run) {
 	}
 	for _, via := range []string{"struct", "parse", "less"} {
 		via := via
-		r.Scenario("full-versions-"+via, map[string]interface{}{"epochs": "0 1 2 10 2^32", "upstream": "all |s|<=2 over 01a~+.-:", "revisions": revs, "versions": len(full)},
+		r.Scenario("full-versions-"+via, map[string]interface{}{"epochs": "0 1 2 10 2^31 2^32 2^63-1", "upstream": "all |s|<=2 over 01a~+.-:", "revisions": revs, "versions": len(full)},
 			len(full), func(i int, st *mc.Stats) bool {
 				for j := range full {
 					in := In{AE: full[i].AE, AV: full[i].AV, AR: full[i].AR, BE: full[j].AE, BV: full[j].AV, BR: full[j].AR, Via: via}
